@@ -24,8 +24,6 @@ func setupLogging() {
 			if r.Lvl > log15.LvlError && !(r.Lvl <= log15.LvlInfo && (strings.HasPrefix(r.Msg, "Invalid transaction") || strings.HasPrefix(r.Msg, "VerifyTxBeforeApply") || strings.HasPrefix(r.Msg, "Term is not stable"))) {
 				return nil
 			}
-			simrt.RaceOff()
-			defer simrt.RaceOn()
 			node := simrt.CurrentNode()
 			var b strings.Builder
 			b.WriteString(r.Msg)
@@ -39,6 +37,7 @@ func setupLogging() {
 			if len(s) > 300 {
 				s = s[:300]
 			}
+			simrt.RaceOff() // the capture buffer's lock is harness bookkeeping, not program synchronisation
 			logMu.Lock()
 			l := logBuf[node]
 			if len(l) > 64 {
@@ -46,6 +45,7 @@ func setupLogging() {
 			}
 			logBuf[node] = append(l, s)
 			logMu.Unlock()
+			simrt.RaceOn()
 			return nil
 		}))
 	})
